@@ -262,6 +262,7 @@ func significantlyDifferent(a, b protoreflect.Message, depth int) bool {
 }
 
 type stackStream struct {
+	filtered    bool // the Pull request carried an option that lets the server leave values out
 	stalled     bool // the reader stops reading after the first message (a legitimate, if unhelpful, client)
 	updatesOnly bool
 	cancel      context.CancelFunc
@@ -344,6 +345,17 @@ func stackRun(w *World, raceOnly bool) {
 		ctx, cancel := context.WithCancel(context.Background())
 		st := &stackStream{updatesOnly: updatesOnly, stalled: stalled, cancel: cancel, done: make(chan struct{})}
 		req := newMsg(tr.pull.Input())
+		// (whatever else a Pull request can say - flags like exclude_ramping - is sometimes set as well: such a stream
+		// may legitimately leave values out, so it is not judged for what it delivers; what it must not do is get in the
+		// way of the other clients)
+		if pf := req.ProtoReflect().Descriptor().Fields(); p.n(4) == 0 {
+			for i := 0; i < pf.Len(); i++ {
+				if fd := pf.Get(i); fd.Kind() == protoreflect.BoolKind && !fd.IsList() && fd.Name() != "updates_only" && p.n(2) == 0 {
+					req.ProtoReflect().Set(fd, protoreflect.ValueOfBool(true))
+					st.filtered = true
+				}
+			}
+		}
 		setName(req, dev)
 		if f := req.ProtoReflect().Descriptor().Fields().ByName("updates_only"); f != nil {
 			req.ProtoReflect().Set(f, protoreflect.ValueOfBool(updatesOnly))
@@ -461,8 +473,8 @@ func stackRun(w *World, raceOnly bool) {
 			for k := 0; k < 3 && st == nil; k++ {
 				task.Settle("race")
 			}
-			if st == nil {
-				return // reported as stuck below
+			if st == nil || st.filtered {
+				return // (nil: reported as stuck below)
 			}
 			st.mu.Lock()
 			serr := st.err
@@ -597,6 +609,10 @@ func stackRun(w *World, raceOnly bool) {
 					bad("pull-failed", fmt.Sprintf("Pull ended at once: %v", serr))
 					return
 				}
+				if st.filtered {
+					task.Note("pull opened with extra options")
+					continue
+				}
 				if !st.updatesOnly {
 					if len(first) == 0 {
 						// a resource whose current value is the empty message (e.g. an empty collection behind it) has
@@ -669,8 +685,8 @@ func stackRun(w *World, raceOnly bool) {
 				}
 				if significantlyDifferent(cur.ProtoReflect(), resp.ProtoReflect(), 1) {
 					for si, st := range streams {
-						if st.stalled {
-							continue // only readers that keep up are owed every update
+						if st.stalled || st.filtered {
+							continue // only readers that keep up (and asked for everything) are owed every update
 						}
 						news := st.snapshot()[before[si]:]
 						ok := false
